@@ -25,6 +25,28 @@ def check_T(name, op):
     return None
 
 
+def _index_cases():
+    """indexing / packing with everything NumPy accepts in bounds: negative and repeated entries, index arrays of rank 2,
+    masks, pytrees — the transposes must scatter-add exactly what the operator gathers"""
+    import jax
+    import jax.numpy as jnp
+    from furax._base.indices import IndexOperator
+    S = jax.ShapeDtypeStruct
+    out = []
+    s = S((6, 2), jnp.float32)
+    tree = {'a': S((4, 3), jnp.float32), 'b': S((4,), jnp.float32)}
+    for name, idx, st in [('Ix[neg]', jnp.asarray([5, -1, 0, 2, -1, -4]), s), ('Ix[neg,2d]', jnp.asarray([[0, -1], [-6, 3]]), s),
+                          ('Ix[last axis]', (slice(None), jnp.asarray([-1, -1, 0])), s), ('Ix[tree,neg]', jnp.asarray([-1, 1, -3, -1]), tree),
+                          ('Ix[int]', -2, s), ('Ix[slice]', slice(None, None, -2), s),
+                          ('Ix[mask]', jnp.asarray([True, False, True, True, False, True]), s)]:
+        try:
+            o = jax.eval_shape(lambda x, idx=idx: jax.tree.map(lambda l: l[idx], x), st)
+            out.append((name, IndexOperator(idx, in_structure=st, out_structure=o)))
+        except Exception:       # noqa: BLE001
+            pass
+    return out
+
+
 def adjoint_family(w, seed, spec):
     t0 = time.time()
     fails = []
@@ -33,6 +55,7 @@ def adjoint_family(w, seed, spec):
     for s in g.structures():
         cases += g.square_atoms(s) + g.rect_pairs(s)
     cases = [(n, o) for n, o in cases if n not in ('Lp',)] + [(n, o) for n, o in cases if n == 'Lp']
+    cases = _index_cases() + cases
     cases += [c for c in K.fixed_chains() if '.I' not in c[0]]
     cases += [c for c in g.expressions(spec.get('n', 25), depth=2) if '.I' not in c[0]]
     for name, op in cases:
